@@ -109,7 +109,7 @@ impl Engine for E {
                 p.floors = c07::floors(if quick { 1 } else { 10 });
             }
             "C08" => {
-                p.cases = if quick { 8 } else { 200 };
+                p.cases = if quick { 8 } else { 160 };
                 p.timeout_s = if quick { 1200 } else { 3 * 3600 };
                 p.rule = "case = one full identity pipeline over the library's own functions: IP with n ARs (n,t cycled over all 1<=t<=n<=6), v0 (generate_pio, validate_request, verify_credentials, verify_initial_cdi) or v1 (generate_pio_v1_with_rng, validate_request_v1, verify_credentials_v1) identity object, attribute lists of 0/1/3/13 values (lengths 0..31), policy revealing none/one/all, max_accounts 4/255/random, counter 0/1/max-1/max, new or existing account, 1-3 credential keys; create_credential; verify_cdi. evaluations = judged executions: every honest stage must accept (also after a serialization round trip); every subset of >= t revokers must reconstruct g^idCredSec from the decrypted AR data (and the PRF key from the pre-identity object on part of the n<=3 pipelines), subsets of size t-1 must not; verify_cdi must reject each single-field perturbation of values / commitments / challenge / every response scalar / range proof component / account signatures / wire bytes, a different expiry/address/IP key/AR key/global context, and counter = max_accounts+1 must not yield an accepted credential. Every 4th case additionally probes an IP key of exactly the minimal length. distinct_nontrivial = distinct accepted credentials (configuration + CDI bytes)".into();
                 p.assumptions.push("fixtures come from concordium_base::id::test (feature internal-test-helpers): test_create_ip_info, test_create_ars, test_create_id_use_data; ground truth for revocation is g^idCredSec / the PRF key taken from the holder's secret data".into());
@@ -143,8 +143,33 @@ impl Engine for E {
                 p.floors.extend(f.drain(..).map(|(k, n)| (k.to_string(), n * s)));
             }
             "C18" => {
-                p.cases = if quick { 40 } else { 1500 };
+                p.cases = if quick { 64 } else { 2000 };
                 p.timeout_s = if quick { 900 } else { 3 * 3600 };
+                p.rule = "even cases: id statements - 1-5 committed attributes (Web3IdAttribute String of length 1..31 / Numeric), 1-4 atomic statements (reveal, in-range, in-set, not-in-set) generated at the boundaries (lower=value, value=upper-1, value=upper, value=lower-1, lower=upper, member first/last/absent/adjacent, set sizes 0,1,2,3,5,8,9), proof version 1 or 2, StatementWithContext::prove / verify. odd cases: web3id v0 presentations with 1-3 credentials (account and web3, empty statement lists allowed), Request::prove_with_rng / Presentation::verify incl. linking proof and JSON round trip. Ground truth = comparison of the documented field embeddings in the harness (independent of to_field_element, cross-checked). evaluations = judged executions: all-true sets must be proved, verify (to the original request) and reveal the committed values; a set with one false statement must not yield a verifying proof; every perturbation of statement / challenge / credential id / global context / version / commitments / proofs / public inputs / holder / contract / issuer signature / linking signatures must not verify (for the documented unchecked account metadata: must not verify to the original request). distinct_nontrivial = distinct all-true requests whose perturbations all ran".into();
+                p.assumptions.push("ground truth: harness embedding of attributes (String: length byte then right-aligned bytes; Numeric: the integer) compared as big integers; range statements are only demanded to be provable when value-lower < 2^64 and upper-value <= 2^64 (documented 64-bit technique)".into());
+                p.assumptions.push("StatementWithContext::prove uses thread_rng() inside the library; web3id proofs use prove_with_rng with the case PRNG; web3id v1 is not covered".into());
+                let s = if quick { 1 } else { 10 };
+                let mut f: Vec<(String, u64)> = vec![];
+                for (k, n) in [
+                    ("complete.id_statement_set", 60), ("complete.presentation", 60), ("complete.presentation.json_roundtrip", 60), ("id.false_statement_set", 30), ("pres.false_statement_set", 30),
+                    ("id.revealed_value_checked", 40), ("pres.revealed_value_checked", 40), ("pres.credential.account", 80), ("pres.credential.web3", 80),
+                    ("pres.credentials.1", 25), ("pres.credentials.2", 25), ("pres.credentials.3", 25), ("reject.expected", 2500),
+                    ("id.statement.range.value=upper.False", 3), ("id.statement.range.lower=value,value=upper-1.True", 30), ("id.statement.range.value=upper-1.True", 10),
+                    ("id.statement.range.value=lower-1.False", 2), ("id.statement.range.lower=upper=value.False", 2), ("id.statement.in_set.member.True", 40), ("id.statement.in_set.absent.False", 4),
+                    ("id.statement.in_set.adjacent_absent.False", 4), ("id.statement.in_set.empty_set.False", 1), ("id.statement.not_in_set.member.False", 10), ("id.statement.not_in_set.absent.True", 20),
+                    ("id.statement.not_in_set.adjacent_absent.True", 20), ("id.statement.reveal.True", 50),
+                    ("pres.statement.account.range.value=upper.False", 2), ("pres.statement.web3.range.value=upper.False", 2), ("pres.statement.account.range.value=upper-1.True", 8), ("pres.statement.web3.range.value=upper-1.True", 8),
+                    ("pres.statement.account.in_set.member.True", 30), ("pres.statement.web3.in_set.member.True", 30), ("pres.statement.account.not_in_set.member.False", 4), ("pres.statement.web3.not_in_set.member.False", 4),
+                ] {
+                    f.push((k.to_string(), n * s));
+                }
+                for k in ["challenge", "commitment", "commitment_missing", "credential_id", "global_context", "proof.bitflip", "proof.dropped", "proof.reordered", "proof.revealed_value", "statement.range.lower", "statement.range.upper", "statement.set.element_added", "statement.set.element_removed", "statement.tag", "version"] {
+                    f.push((format!("perturb.id.{}", k), 12 * s));
+                }
+                for k in ["account.cred_id", "account.network", "credentials.reordered", "global_context", "linking.signature_altered", "linking.signature_extra", "linking.signature_removed", "presentation_context", "public.commitment", "public.issuer_key", "public.missing", "proofs.exchanged", "statement.range.lower", "statement.range.upper", "statement.set.element_added", "statement.set.element_removed", "statement.tag", "web3.commitments.commitment", "web3.commitments.signature", "web3.contract", "web3.created", "web3.holder", "web3.network"] {
+                    f.push((format!("perturb.pres.{}", k), 8 * s));
+                }
+                p.floors = f;
             }
             _ => {}
         }
